@@ -113,6 +113,70 @@ func c12MultiSig(ids []hotstuff.ID, salt byte) hotstuff.QuorumSignature {
 	return crypto.NewMulti(sigs...)
 }
 
+func c12MultiSigEd(ids []hotstuff.ID, salt byte) hotstuff.QuorumSignature {
+	sigs := make([]*crypto.EDDSASignature, len(ids))
+	for i, id := range ids {
+		sigs[i] = crypto.RestoreEDDSASignature(bytes.Repeat([]byte{salt + byte(i)}, 7+2*i), id)
+	}
+	return crypto.NewMulti(sigs...)
+}
+
+// c12SigEntries renders a signature entry by entry: (signer, bytes) for multi-signatures.
+func c12SigEntries(s hotstuff.QuorumSignature) string {
+	var sb strings.Builder
+	switch ms := s.(type) {
+	case nil:
+		return "nil"
+	case crypto.Multi[*crypto.ECDSASignature]:
+		sb.WriteString("ecdsa")
+		for _, x := range ms {
+			fmt.Fprintf(&sb, " %d:%x", x.Signer(), x.ToBytes())
+		}
+	case crypto.Multi[*crypto.EDDSASignature]:
+		sb.WriteString("eddsa")
+		for _, x := range ms {
+			fmt.Fprintf(&sb, " %d:%x", x.Signer(), x.ToBytes())
+		}
+	default:
+		fmt.Fprintf(&sb, "%T %s %x", s, hotstuff.IDSetToString(s.Participants()), s.ToBytes())
+	}
+	return sb.String()
+}
+
+// c12Repartitions: the same signers and the same concatenated signature bytes, cut elsewhere.
+// in: per-signer signature bytes; out: alternative splits with a description.
+func c12Repartitions(sigs [][]byte) (out [][][]byte, how []string) {
+	cp := func() [][]byte {
+		c := make([][]byte, len(sigs))
+		for i := range sigs {
+			c[i] = append([]byte{}, sigs[i]...)
+		}
+		return c
+	}
+	for i := 0; i+1 < len(sigs); i++ {
+		a := cp()
+		a[i], a[i+1] = append(a[i], a[i+1]...), nil
+		out, how = append(out, a), append(how, fmt.Sprintf("signer %d carries its own and the next signer's bytes, the next entry is empty", i))
+		b := cp()
+		b[i], b[i+1] = nil, append(b[i], b[i+1]...)
+		out, how = append(out, b), append(how, fmt.Sprintf("entry %d is empty, the next signer carries both", i))
+		if len(sigs[i]) > 0 {
+			c := cp()
+			n := len(c[i])
+			c[i+1] = append([]byte{c[i][n-1]}, c[i+1]...)
+			c[i] = c[i][:n-1]
+			out, how = append(out, c), append(how, fmt.Sprintf("boundary between entries %d and %d moved one byte to the left", i, i+1))
+		}
+		if len(sigs[i+1]) > 0 {
+			d := cp()
+			d[i] = append(d[i], d[i+1][0])
+			d[i+1] = d[i+1][1:]
+			out, how = append(out, d), append(how, fmt.Sprintf("boundary between entries %d and %d moved one byte to the right", i, i+1))
+		}
+	}
+	return
+}
+
 func c12Marshal(m proto.Message) []byte {
 	b, _ := proto.Marshal(m)
 	return b
@@ -160,6 +224,8 @@ func c12BlockDiff(a, b *hotstuff.Block) string {
 		return "qc-signers"
 	case qa.Signature() != nil && !bytes.Equal(qa.Signature().ToBytes(), qb.Signature().ToBytes()):
 		return "qc-signature-bytes"
+	case c12SigEntries(qa.Signature()) != c12SigEntries(qb.Signature()):
+		return "qc-signature-partition"
 	}
 	return ""
 }
@@ -349,6 +415,12 @@ func TestVerifC12(t *testing.T) {
 		b := hotstuff.NewBlock(parent.Hash(), qc, &clientpb.Batch{}, hotstuff.View(7+i), hotstuff.ID(1+i))
 		pool = append(pool, b)
 	}
+	// blocks whose certificate is an EdDSA multi-signature of 2 and of 3 signers
+	for i, ids := range [][]hotstuff.ID{{2, 3}, {1, 2, 4}} {
+		qc := hotstuff.NewQuorumCert(c12MultiSigEd(ids, byte(0x60+16*i)), parent.View(), parent.Hash())
+		b := hotstuff.NewBlock(parent.Hash(), qc, &clientpb.Batch{}, hotstuff.View(9+i), hotstuff.ID(1+i))
+		pool = append(pool, b)
+	}
 	// blocks carrying the batches of the collision-hunting family
 	nPlain := len(pool)
 	for i, batch := range c12Batches(r) {
@@ -382,6 +454,58 @@ func TestVerifC12(t *testing.T) {
 					"hash_a": fmt.Sprintf("%x", sha256.Sum256(b.ToBytes())), "hash_b": fmt.Sprintf("%x", sha256.Sum256(o.ToBytes())),
 					"bytes_a": fmt.Sprintf("%x", b.ToBytes()), "bytes_b": fmt.Sprintf("%x", o.ToBytes()),
 					"block": b.String()})
+		}
+	}
+	// different certificates must give different bytes: the same signers and the same concatenated
+	// signature bytes cut at other boundaries (one signer carrying two signatures, an empty entry, a
+	// boundary moved by one byte) verify differently and so are different certificates
+	for _, b := range pool {
+		var ids []hotstuff.ID
+		var sigs [][]byte
+		mk := func(parts [][]byte) hotstuff.QuorumSignature { return nil }
+		switch ms := b.QuorumCert().Signature().(type) {
+		case crypto.Multi[*crypto.ECDSASignature]:
+			for _, x := range ms {
+				ids, sigs = append(ids, x.Signer()), append(sigs, x.ToBytes())
+			}
+			mk = func(parts [][]byte) hotstuff.QuorumSignature {
+				l := make([]*crypto.ECDSASignature, len(parts))
+				for i := range parts {
+					l[i] = crypto.RestoreECDSASignature(parts[i], ids[i])
+				}
+				return crypto.NewMulti(l...)
+			}
+		case crypto.Multi[*crypto.EDDSASignature]:
+			for _, x := range ms {
+				ids, sigs = append(ids, x.Signer()), append(sigs, x.ToBytes())
+			}
+			mk = func(parts [][]byte) hotstuff.QuorumSignature {
+				l := make([]*crypto.EDDSASignature, len(parts))
+				for i := range parts {
+					l[i] = crypto.RestoreEDDSASignature(parts[i], ids[i])
+				}
+				return crypto.NewMulti(l...)
+			}
+		default:
+			continue
+		}
+		parts, how := c12Repartitions(sigs)
+		for k := range parts {
+			sig := mk(parts[k])
+			if c12SigEntries(sig) == c12SigEntries(b.QuorumCert().Signature()) {
+				continue
+			}
+			qc := hotstuff.NewQuorumCert(sig, b.QuorumCert().View(), b.QuorumCert().BlockHash())
+			o := hotstuff.NewBlock(b.Parent(), qc, b.Commands(), b.View(), b.Proposer())
+			o.SetTimestamp(b.Timestamp())
+			v.Seen("collide-qc|"+c12SigEntries(b.QuorumCert().Signature())+"|"+c12SigEntries(sig), true, map[string]any{"qc": c12SigEntries(b.QuorumCert().Signature()), "twin": c12SigEntries(sig)})
+			v.Count("collision-hunt.certificate-pairs")
+			same := o.Hash() == b.Hash() || bytes.Equal(o.ToBytes(), b.ToBytes()) || bytes.Equal(qc.ToBytes(), b.QuorumCert().ToBytes())
+			v.Oracle(!same, "block:different-blocks-same-hash:qc-signature-partition",
+				"two blocks whose certificates carry the same signers and the same signature bytes cut at other boundaries ("+how[k]+") have the same ToBytes()/Hash(), although the certificates verify differently",
+				map[string]any{"certificate_a": c12SigEntries(b.QuorumCert().Signature()), "certificate_b": c12SigEntries(sig), "how": how[k],
+					"hash_a": fmt.Sprintf("%x", sha256.Sum256(b.ToBytes())), "hash_b": fmt.Sprintf("%x", sha256.Sum256(o.ToBytes())),
+					"qc_bytes_a": fmt.Sprintf("%x", b.QuorumCert().ToBytes()), "qc_bytes_b": fmt.Sprintf("%x", qc.ToBytes()), "block": b.String()})
 		}
 	}
 	// the batch must also be framed against the certificate that follows it in Block.ToBytes: the pair
@@ -467,6 +591,33 @@ func TestVerifC12(t *testing.T) {
 		case 8:
 			pb.Timestamp = nil
 			return pb, "no timestamp"
+		case 11: // the same signers and signature bytes cut at other boundaries
+			var get func(i int) []byte
+			var set func(i int, b []byte)
+			n := 0
+			switch w := pb.QC.GetSig().GetSig().(type) {
+			case *hotstuffpb.QuorumSignature_ECDSASigs:
+				l := w.ECDSASigs.Sigs
+				n, get, set = len(l), func(i int) []byte { return l[i].Sig }, func(i int, b []byte) { l[i].Sig = b }
+			case *hotstuffpb.QuorumSignature_EDDSASigs:
+				l := w.EDDSASigs.Sigs
+				n, get, set = len(l), func(i int) []byte { return l[i].Sig }, func(i int, b []byte) { l[i].Sig = b }
+			}
+			if n >= 2 {
+				sigs := make([][]byte, n)
+				for i := range sigs {
+					sigs[i] = get(i)
+				}
+				if parts, how := c12Repartitions(sigs); len(parts) > 0 {
+					k := r.Intn(len(parts))
+					for i := range parts[k] {
+						set(i, parts[k][i])
+					}
+					return pb, "re-partitioned signature bytes: " + how[k]
+				}
+			}
+			pb.View ^= 1 << 62
+			return pb, "view bit 62"
 		case 10: // the same command bytes cut at other boundaries
 			if tw := c12Resplits(orig.Commands()); len(tw) > 0 {
 				t := tw[r.Intn(len(tw))]
@@ -520,6 +671,8 @@ func TestVerifC12(t *testing.T) {
 				pb, what = lie(orig, 7)
 			case r.Intn(3) == 0:
 				pb, what = lie(orig, 10)
+			case r.Intn(3) == 0:
+				pb, what = lie(orig, 11)
 			default:
 				pb, what = lie(orig, r.Intn(10))
 			}
@@ -632,6 +785,7 @@ func TestVerifC12(t *testing.T) {
 				in := map[string]any{"requested_hash": fmt.Sprintf("%x", want[:]), "returned_from_node": node, "returned_reply": whats[node],
 					"named_block": orig.String(), "named_block_qc_signers": c12Signers(orig),
 					"named_block_commands": c12Cmds(orig.Commands()), "accepted_block_commands": c12Cmds(blk.Commands()),
+					"named_block_certificate": c12SigEntries(orig.QuorumCert().Signature()), "accepted_block_certificate": c12SigEntries(blk.QuorumCert().Signature()),
 					"accepted_block": blk.String(), "accepted_block_qc_signers": c12Signers(blk),
 					"accepted_block_hash": fmt.Sprintf("%x", sha256.Sum256(blk.ToBytes())), "replies": desc,
 					"accepted_reply_wire_hex": fmt.Sprintf("%x", c12Marshal(got))}
